@@ -147,13 +147,15 @@ inline std::vector<Point64> samplePoints(const Paths64& pp, bool closed, double 
 inline bool isolatedInDelta(double absDelta, double minDelta, const std::function<int(double)>& evalAt) {
   int judged = 0, bad = 0;
   bool farBad = false;
-  for (double pd : {0.37, -0.37, 0.73, -0.73, 1.9, -1.9, 3.7, -3.7, 6.1, -6.1}) {
+  // the largest perturbations first: a systematic defect is recognised after one or two evaluations
+  for (double pd : {6.1, -6.1, 3.7, -3.7, 1.9, -1.9, 0.73, -0.73, 0.37, -0.37}) {
     double d2 = absDelta + pd;
     if (d2 < minDelta) continue;
     int r = evalAt(d2);
     if (r < 0) continue;
     ++judged;
     if (r > 0) { ++bad; if (std::fabs(pd) > 3) farBad = true; }
+    if (farBad || bad > 5) return false;
   }
   return judged >= 3 && bad * 2 <= judged && !farBad;
 }
